@@ -577,9 +577,12 @@ def replay_dependency_order(inputs, clause):
         env["PYTHONHASHSEED"] = str(seed)
         procs.append(subprocess.Popen([sys.executable, path, str(seed)], stdout=subprocess.PIPE, stderr=subprocess.PIPE, text=True, env=env))
     outs = []
+    import time
+
+    deadline = time.time() + 95  # the framework treats a replay that takes 120 s as non-termination: never get there
     try:
         for p in procs:
-            o, e = p.communicate(timeout=100)
+            o, e = p.communicate(timeout=max(1, deadline - time.time()))
             line = [l for l in o.splitlines() if l.startswith("ORDER")]
             outs.append(line[0] if line else "ERROR " + (e.strip().splitlines()[-1] if e.strip() else ""))
     finally:
